@@ -388,6 +388,7 @@ def mutations(base, label, sites="all"):
         """mutation sites: each message, each component, and each group NAME (a mutation of a group is
         applied to every definition of that name, since the generator keeps one definition per name)"""
         cs = [("message:" + m.get("name"), [m]) for m in s.messages()]
+        cs += [("header", [s.root.find("header")]), ("trailer", [s.root.find("trailer")])]
         cs += [("component:" + n, [c]) for n, c in s.components().items()]
         byname = {}
         for g in s.root.iter("group"):
@@ -407,7 +408,7 @@ def mutations(base, label, sites="all"):
             if sites != "all" and (ci + i) % sites != 0:
                 continue
             tag = "%s[%d:%s]" % (cname, i, m.get("name"))
-            if len(ms) > 1:
+            if len(ms) > 1 and m.get("name") not in PIPELINE and m.get("name") not in EXCLUDED:  # a pipeline message must keep its pipeline fields, header/trailer their framing fields
                 s = b.clone()
                 for c2 in dict(containers(s))[cname]:
                     c2.remove(members(c2)[i])
@@ -423,6 +424,8 @@ def mutations(base, label, sites="all"):
                     c2.insert(ia, bb)
                     c2.insert(ib, a)
                 out.append(Variant("%s/swap %s" % (label, tag), s))
+            if m.get("name") in EXCLUDED:
+                continue
             s = b.clone()
             for c2 in dict(containers(s))[cname]:
                 mm = members(c2)[i]
@@ -528,6 +531,12 @@ def mutations(base, label, sites="all"):
     if enums and plains:
         pairs.append(("enum-takes-number-of-plain", enums[0], plains[len(plains) // 2]))
         pairs.append(("plain-takes-number-of-enum", plains[len(plains) // 2], enums[-1]))
+    # a field declaration repeated verbatim (same name, same number) is a duplicate number too
+    s = b.clone()
+    fl = list(s.fields().values())
+    src = fl[len(fl) // 2]
+    s.root.find("fields").append(copy.deepcopy(src))
+    out.append(Variant("%s/duplicate-field-number verbatim-repeat %s" % (label, src.get("name")), s, expect_reject=True))
     for nm, i, j in pairs:
         if i == j:
             continue
